@@ -14,11 +14,21 @@
                                     before the write), WriteObjectHeader
      link_write.go                  CreateHardLink (+ reference-count message, roll-back),
                                     CreateSoftLink / CreateExternalLink (link object header)
-   Not modelled: byte contents (C11), global heap collections (variable-length data, C12),
-   fractal-heap / B-tree v2 internals beyond their four extents (C14, C15), filters (C08).
+     internal/writer/densegroup_writer.go  DenseGroupWriter.WriteToFile / createObjectHeader (CreateDenseGroup,
+                                    CreateGroupWithLinks with more than 8 links): fractal heap header + 512 KiB direct
+                                    block, B-tree v2 leaf + header, object header (Link Info + dataspace)
+     global_heap_write.go           WriteToGlobalHeap / createNewHeap / flushCurrentHeap (variable-length data): collection
+                                    sizes by the formulas of Model/GHeap.v, flush at roll-over and at Close
+   Other public creation paths are instances of the operations below: CreateCompoundDataset and the array / enum / opaque /
+   reference / variable-length datatypes = OpMkContig / OpMkChunked with the length of their datatype message;
+   CreateGroupWithLinks = OpMkGroup (no link), OpReject (1..8 links), OpMkDense (more than 8); filtered chunks = OpWrite
+   with the filtered length of every chunk; the rebalancing calls do not touch the file.
+   Not modelled: byte contents (C11, C12), fractal-heap / B-tree v2 internals beyond their extents (C14, C15),
+   what the filters compute (C08: the stored length of every chunk is a parameter of the history).
 
    No proofs in this file. *)
 From HV Require Import Base.Prelude.
+From HV Require Model.GHeap.
 
 (* ------------------------------------------------------------------ identifiers *)
 
@@ -35,14 +45,17 @@ Inductive kind :=
 | KData                                   (* contiguous raw data *)
 | KChunk | KChunkIdx                      (* one chunk; chunk index node (B-tree v1 type 1) *)
 | KFHeapHdr | KFHeapBlk | KBt2Leaf | KBt2Hdr   (* dense attribute storage *)
-| KSpill.                                 (* allocator advanced past a header end (transitionToDenseAttributes) *)
+| KSpill                                  (* allocator advanced past a header end (transitionToDenseAttributes) *)
+| KLinkHeapBlk                            (* dense group: the 512 KiB direct block of its fractal heap *)
+| KGCol (sz : N).                         (* global heap collection created with size sz (owner 0: one writer per file) *)
 
 Definition kind_eqb (a b : kind) : bool :=
   match a, b with
   | KSuper, KSuper | KRootHdr, KRootHdr | KRootBtV0, KRootBtV0 | KHeader, KHeader | KLinkHdr, KLinkHdr | KHeap, KHeap
   | KSnod, KSnod | KBtree, KBtree | KData, KData | KChunk, KChunk | KChunkIdx, KChunkIdx
   | KFHeapHdr, KFHeapHdr | KFHeapBlk, KFHeapBlk | KBt2Leaf, KBt2Leaf | KBt2Hdr, KBt2Hdr
-  | KSpill, KSpill => true
+  | KSpill, KSpill | KLinkHeapBlk, KLinkHeapBlk => true
+  | KGCol x, KGCol y => x =? y
   | _, _ => false
   end.
 
@@ -72,6 +85,10 @@ Definition snod_size : N := 8 + 32 * (2 * 8 + 4 + 4 + 16).
 Definition btree_size : N := 24 + (2 * 16 + 1) * 8 + 2 * 16 * 8.
 Definition fh_hdr_size : N := 22 + 12 * 8 + 3 * 8 + 4.
 Definition fh_blk_size : N := 64 * 1024.
+Definition lheap_blk_size : N := 512 * 1024.         (* NewDenseGroupWriter: NewWritableFractalHeap(512 * 1024) *)
+Definition linkinfo_len : N := 1 + 1 + 8 + 8.        (* EncodeLinkInfoMessage without creation order *)
+Definition max_chunk_entries : N := 65535.           (* structures.MaxChunkBTreeEntries *)
+Definition gcol_min : N := 4096.                     (* globalHeapWriter.minCollectionSize = rounding unit of createNewHeap *)
 Definition bt2_node : N := 4096.
 Definition bt2_hdr_size : N := 4 + 1 + 1 + 4 + 2 + 2 + 1 + 1 + 8 + 2 + 8 + 4.
 Definition bt2_maxrec : N := (bt2_node - 10) / 11.   (* calculateMaxRecords *)
@@ -90,6 +107,7 @@ Definition v0_snod_addr : N := v0_bt_addr + v0_bt_size.
 Definition v0_heap_addr : N := v0_snod_addr + snod_size.
 
 (* message type numbers *)
+Definition M_LINKINFO : N := 2.
 Definition M_DATASPACE : N := 1.   Definition M_DATATYPE : N := 3.   Definition M_LINK : N := 6.
 Definition M_LAYOUT : N := 8.      Definition M_PIPELINE : N := 11.  Definition M_ATTR : N := 12.
 Definition M_SYMTAB : N := 17.     Definition M_ATTRINFO : N := 21.  Definition M_REFCOUNT : N := 22.
@@ -103,17 +121,19 @@ Record cfg := mkCfg {
   c_reserve_v0 : bool;      (* superblock v0 root structures reserved in the allocator (fix 3905a26) *)
   c_precheck : bool;        (* creations / hard links check linkToParent's conditions before allocating or writing
                                (fix e5d916a, link pre-check) *)
-  c_attrinfo : bool }.      (* transitionToDenseAttributes checks that the attribute info message fits before it
+  c_attrinfo : bool;        (* transitionToDenseAttributes checks that the attribute info message fits before it
                                allocates the dense storage (fix 8199862) *)
+  c_reserve_dense : bool }. (* CreateDenseGroup allocates its object header at max_hdr (fix 18bfe7a); false = exact size *)
 
 (* the configurations the theorems are about: all extent-related repairs in, the two error-path patches
    present or not *)
-Definition gcfg (pre ai : bool) := mkCfg true true true true pre ai.
+Definition gcfg (pre ai : bool) := mkCfg true true true true pre ai true.
 Definition cfg_fixed := gcfg true true.
 Definition cfg_head := gcfg false true.                           (* /repo before e5d916a (link pre-check not yet in) *)
-Definition cfg_repo := mkCfg true false true true false false.     (* before 0d24a11 (link object headers at exact size) *)
-Definition cfg_exact_hdr := mkCfg false false true true false false.   (* before 9ee6197 *)
-Definition cfg_no_extend := mkCfg true true false true false false.    (* before 72cccd1 *)
+Definition cfg_repo := mkCfg true false true true false false true.     (* before 0d24a11 (link object headers at exact size) *)
+Definition cfg_exact_hdr := mkCfg false false true true false false true.   (* before 9ee6197 *)
+Definition cfg_no_extend := mkCfg true true false true false false true.
+Definition cfg_exact_dense := mkCfg true true true true true true false.  (* /repo before 18bfe7a *)    (* before 72cccd1 *)
 
 (* fixed-size kinds: allocation size = every later rewrite bound *)
 Definition sized (c : cfg) (k : kind) : option N :=
@@ -123,11 +143,16 @@ Definition sized (c : cfg) (k : kind) : option N :=
   | KHeap => Some heap_size | KSnod => Some snod_size | KBtree => Some btree_size
   | KFHeapHdr => Some fh_hdr_size | KFHeapBlk => Some fh_blk_size
   | KBt2Leaf => Some bt2_node | KBt2Hdr => Some bt2_hdr_size
+  | KLinkHeapBlk => Some lheap_blk_size
+  | KGCol sz => Some sz
   | _ => None
   end.
 
 Definition hdr_alloc (c : cfg) (k : kind) (m : list msg) : N :=
   match sized c k with Some n => n | None => hdr_size m end.
+(* DenseGroupWriter.createObjectHeader: max(headerSize, 7 + 255) since 18bfe7a, headerSize before *)
+Definition dense_hdr_alloc (c : cfg) (m : list msg) : N :=
+  if c_reserve_dense c then N.max (hdr_size m) max_hdr else hdr_size m.
 
 (* ------------------------------------------------------------------ allocator and primitive store actions *)
 
@@ -212,7 +237,7 @@ Fixpoint exec (s : store) (l : list cmd) : store * bool :=
 
 (* ------------------------------------------------------------------ logical bookkeeping (what the handles know) *)
 
-Inductive okind := OGroup | OContig | OChunked | OLink.
+Inductive okind := OGroup | OContig | OChunked | OLink | ODense.   (* ODense: group made by CreateDenseGroup *)
 
 Record obj := mkObj {
   o_id : oid; o_kind : okind;
@@ -225,7 +250,8 @@ Record obj := mkObj {
 
 Record state := mkState {
   st : store; objs : list obj; opidx : N; closed : bool; session : N; sbv : N; conf : cfg;
-  sbeof : N }.            (* end-of-file address stored in the superblock on disk *)
+  sbeof : N;              (* end-of-file address stored in the superblock on disk *)
+  gh : option (N * N) }.  (* globalHeapWriter.currentHeap: (size, freeSpace) of the collection being filled *)
 
 Fixpoint get_obj (l : list obj) (x : oid) : option obj :=
   match l with [] => None | ob :: r => if o_id ob =? x then Some ob else get_obj r x end.
@@ -274,6 +300,12 @@ Inductive op :=
          hfit = the fractal heap accepts the object (its capacity rules belong to C15) *)
 | OpAttrDel (x : oid) (idx : option nat)
 | OpHardLink (p : oid) (nl : N) (dup : bool) (tgt : oid)
+| OpMkDense (p : oid) (nl : N) (dup : bool) (nlinks : N) (fit : bool)
+      (* CreateDenseGroup (also CreateGroupWithLinks with more than 8 links): nlinks = number of links;
+         fit = every target resolves, no two names share a hash, the link messages fit the heap block (C14 / C15) *)
+| OpWriteVL (x : oid) (lens : list N) (chunks : list N)
+      (* Write of variable-length data: byte length of every element (each goes to the global heap), then the
+         heap IDs are stored like fixed-size data (chunks: stored size of every chunk, ignored for contiguous) *)
 | OpReject                                                    (* refused by argument validation: no allocation, no write *)
 | OpClose
 | OpReopen.
@@ -406,6 +438,54 @@ Fixpoint chunk_cmds (x : oid) (sizes : list N) : list cmd * bool :=
               else let '(c, ok) := chunk_cmds x r in (CAllocWrite x KChunk n :: c, ok)
   end.
 
+(* WriteToGlobalHeap for every element in turn.  g = (size, freeSpace) of the current collection.
+   A new collection is needed when there is none or the object (16-byte header + data padded to 8) does not fit:
+   the current one is flushed (whole buffer of its recorded size, at its address), a new one is allocated
+   (GHeap.new_size) and the object is added to it. *)
+Fixpoint vl_walk (g : option (N * N)) (lens : list N) : list cmd * option (N * N) :=
+  match lens with
+  | [] => ([], g)
+  | l :: r =>
+      let tot := GHeap.obj_total l in
+      let roll := match g with None => true | Some (_, free) => free <? tot end in
+      if roll then
+        let fl := match g with Some (sz, _) => [CWrite 0 (KGCol sz) 0 sz] | None => [] end in
+        let nsz := GHeap.new_size gcol_min gcol_min tot in
+        let '(c, g') := vl_walk (Some (nsz, nsz - 16 - tot)) r in
+        (fl ++ CAlloc 0 (KGCol nsz) nsz :: c, g')
+      else vl_walk (match g with Some (sz, free) => Some (sz, free - tot) | None => None end) r
+  end.
+
+(* writeChunkedData: every chunk is allocated and written, then the index, then the address patch in the header *)
+Definition chunked_write (y : oid) (ob : obj) (sizes : list N) : compiled :=
+  if max_chunk_entries <? N.of_nat (List.length sizes) then reject       (* "the chunk index holds at most 65535" *)
+  else
+  let '(cc, ok) := chunk_cmds y sizes in
+  if ok then (cc ++ [CAllocWrite y KChunkIdx (idx_size (o_rank ob) (N.of_nat (List.length sizes)));
+                     CWrite y KHeader (o_poff ob) 8], true, fun l => l)
+  else (cc, false, fun l => l).
+
+(* DatasetWriter.writeVLen; second component = the heap writer's current collection afterwards *)
+Definition vl_compile (s : state) (y : oid) (lens sizes : list N) : compiled * option (N * N) :=
+  if closed s then (reject, gh s) else
+  match get_obj (objs s) y with
+  | None => (reject, gh s)
+  | Some ob =>
+      let '(hc, g') := vl_walk (gh s) lens in
+      match o_kind ob with
+      | OContig => ((hc ++ [CWriteWhole y KData], true, fun l => l), g')
+      | OChunked =>
+          if negb (session s =? 0) then (reject, gh s)               (* dataNotOverwritable on OpenDataset handles *)
+          else match sizes with
+               | [] => (reject, gh s)
+               | _ => let '(cc, ok, upd) := chunked_write y ob sizes in ((hc ++ cc, ok, upd), g')
+               end
+      | _ => (reject, gh s)
+      end
+  end.
+
+Definition dense_msgs : list msg := [(M_LINKINFO, linkinfo_len); (M_DATASPACE, 8)].
+
 Definition compile (s : state) (o : op) : compiled :=
   let c := conf s in
   let x := opidx s + 1 in
@@ -470,15 +550,29 @@ Definition compile (s : state) (o : op) : compiled :=
               if negb (session s =? 0) then reject                 (* dataNotOverwritable on OpenDataset handles *)
               else match sizes with
                    | [] => reject
-                   | _ =>
-                       let '(cc, ok) := chunk_cmds y sizes in
-                       if ok then (cc ++ [CAllocWrite y KChunkIdx (idx_size (o_rank ob) (N.of_nat (List.length sizes)));
-                                          CWrite y KHeader (o_poff ob) 8], true, fun l => l)
-                       else (cc, false, fun l => l)
+                   | _ => chunked_write y ob sizes
                    end
           | _ => reject
           end
       end
+  | OpWriteVL y lens sizes => fst (vl_compile s y lens sizes)
+  | OpMkDense p nl dup nlinks fit =>
+      (* links are resolved and inserted into the in-memory heap / B-tree first (resolveObjectAddress fails after
+         OpenForWrite; "dense group must have at least one link"; ErrBTreeNodeFull above 371 records) *)
+      if (nlinks =? 0) || negb (session s =? 0) || negb fit || (bt2_maxrec <? nlinks) then reject
+      else
+        match hdr_write x KHeader dense_msgs with
+        | None => reject
+        | Some w =>
+            let pre := [CAlloc x KFHeapHdr fh_hdr_size; CAlloc x KLinkHeapBlk lheap_blk_size;
+                        CWrite x KFHeapHdr 0 fh_hdr_size; CWrite x KLinkHeapBlk 0 lheap_blk_size;
+                        CAlloc x KBt2Leaf bt2_node; CWrite x KBt2Leaf 0 (leaf_size nlinks);
+                        CAllocWrite x KBt2Hdr bt2_hdr_size;
+                        CAlloc x KHeader (dense_hdr_alloc c dense_msgs); w] in
+            (* the parent is looked up only now; there is no link pre-check on this path *)
+            if negb (parent_known s p) then (pre, false, fun l => l)
+            else seq_link pre (link_to_parent s p nl dup) (new_obj x ODense dense_msgs 0 0)
+        end
   | OpResize y =>
       match get_obj (objs s) y with
       | None => reject
@@ -531,7 +625,14 @@ Definition compile (s : state) (o : op) : compiled :=
       end
   end.
 
-(* FileWriter.Close: (global heap flush: nothing without variable-length data), update the superblock's
+(* globalHeapWriter.Flush: the current collection (if any) is written as a whole buffer of its recorded size *)
+Definition gflush (g : option (N * N)) (s : store) : store :=
+  match g with
+  | Some (sz, _) => match find_ext (exts s) 0 (KGCol sz) with Some e => write s (start e) sz | None => s end
+  | None => s
+  end.
+
+(* FileWriter.Close: global heap flush, update the superblock's
    end-of-file field, extend the file to the allocator's end of file, close.  A second Close does nothing. *)
 Definition close_store (c : cfg) (s : store) : store :=
   if c_extend_close c
@@ -549,27 +650,30 @@ Definition sb_update_len : N := 48.
 Definition do_close (s : state) : state :=
   if closed s then s
   else
-    let st1 := if sbeof s <? next (al (st s)) then write (st s) 0 sb_update_len else st s in
+    let st0 := gflush (gh s) (st s) in
+    let st1 := if sbeof s <? next (al (st s)) then write st0 0 sb_update_len else st0 in
     mkState (close_store (conf s) st1) (objs s) (opidx s) true (session s) (sbv s) (conf s)
-            (N.max (sbeof s) (next (al (st s)))).
+            (N.max (sbeof s) (next (al (st s)))) (gh s).
 
 (* a failing call keeps its store effects; the bookkeeping of a failed call is that of the
    hard-link roll-back only (see compile) *)
 Definition step (s : state) (o : op) : state * bool :=
-  let s0 := mkState (clear_log (st s)) (objs s) (opidx s) (closed s) (session s) (sbv s) (conf s) (sbeof s) in
+  let s0 := mkState (clear_log (st s)) (objs s) (opidx s) (closed s) (session s) (sbv s) (conf s) (sbeof s) (gh s) in
   match o with
   | OpClose =>
       let s1 := do_close s0 in
-      (mkState (st s1) (objs s1) (opidx s + 1) (closed s1) (session s1) (sbv s1) (conf s1) (sbeof s1), true)
+      (mkState (st s1) (objs s1) (opidx s + 1) (closed s1) (session s1) (sbv s1) (conf s1) (sbeof s1) (gh s1), true)
   | OpReopen =>
       (* the harness (and any sane caller) closes the previous writer first *)
       let s1 := do_close s0 in
-      (mkState (reopen_store (sbv s) (st s1)) (objs s1) (opidx s + 1) false (session s + 1) (sbv s) (conf s) (sbeof s1), true)
+      (* OpenForWrite: a new global heap writer without a current collection *)
+      (mkState (reopen_store (sbv s) (st s1)) (objs s1) (opidx s + 1) false (session s + 1) (sbv s) (conf s) (sbeof s1) None, true)
   | _ =>
       let '(cmds, ok, upd) := compile s0 o in
       let '(st', done) := exec (st s0) cmds in
       let applies := match o with OpHardLink _ _ _ _ => done | _ => ok && done end in
-      (mkState st' (if applies then upd (objs s) else objs s) (opidx s + 1) (closed s) (session s) (sbv s) (conf s) (sbeof s),
+      let g' := match o with OpWriteVL y lens sizes => snd (vl_compile s0 y lens sizes) | _ => gh s end in
+      (mkState st' (if applies then upd (objs s) else objs s) (opidx s + 1) (closed s) (session s) (sbv s) (conf s) (sbeof s) g',
        ok && done)
   end.
 
@@ -602,22 +706,25 @@ Definition init (c : cfg) (sb : N) : state :=
   let s1 := mkStore (al s0) [mkExt 0 (sb_size sb) 0 KSuper] 0 [] [] false in
   let st1 := fst (exec s1 (init_cmds c sb)) in
   (* CreateForWrite: v0 records heap address + heap data size, v2/v3 the allocator's end of file *)
-  mkState st1 [root_obj] 0 false 0 sb c (if sb =? 0 then v0_heap_addr + heap_data else next (al st1)).
+  mkState st1 [root_obj] 0 false 0 sb c (if sb =? 0 then v0_heap_addr + heap_data else next (al st1)) None.
 
 (* ------------------------------------------------------------------ what an operation may touch *)
 
 Definition is_heap_snod (k : kind) : bool := match k with KHeap | KSnod => true | _ => false end.
 Definition is_hdr (k : kind) : bool := match k with KHeader | KLinkHdr => true | _ => false end.
+Definition is_gcol (k : kind) : bool := match k with KGCol _ => true | _ => false end.
 
 (* extents (owner, kind) an operation issued in state s may write to, besides the ones it allocates *)
 Definition targets (s : state) (o : op) (w : oid) (k : kind) : bool :=
   let x := opidx s + 1 in
   match o with
-  | OpMkGroup p _ _ | OpMkContig p _ _ _ _ _ | OpMkChunked p _ _ _ _ _ _ | OpMkLink p _ _ _ =>
+  | OpMkGroup p _ _ | OpMkContig p _ _ _ _ _ | OpMkChunked p _ _ _ _ _ _ | OpMkLink p _ _ _ | OpMkDense p _ _ _ _ =>
       (w =? x) || ((w =? p) && is_heap_snod k)
+  (* a variable-length write may flush the file's current global heap collection, whoever filled it *)
+  | OpWriteVL y _ _ => (w =? y) || ((w =? 0) && is_gcol k)
   | OpWrite y _ | OpResize y | OpAttrSet y _ _ _ | OpAttrDel y _ => (w =? y)
   | OpHardLink p _ _ t => ((w =? t) && is_hdr k) || ((w =? p) && is_heap_snod k)
-  | OpClose | OpReopen => (w =? 0) && kind_eqb k KSuper      (* Close may update the superblock *)
+  | OpClose | OpReopen => (w =? 0) && (kind_eqb k KSuper || is_gcol k)   (* Close may update the superblock, flushes the heap *)
   | OpReject => false
   end.
 
